@@ -105,7 +105,8 @@ def r_stmt(s):
         e = s[1]
         return r_expr(e) + ("" if e[0] in BLOCKLIKE else ";")
     if s[0] == "let":
-        return "let %s%s;" % (r_pat(s[1]), "" if s[2] is None else " = " + r_expr(s[2]))
+        els = (" " + s[3]) if len(s) > 3 else ""       # let-else: the diverging block is not part of the model
+        return "let %s%s%s;" % (r_pat(s[1]), "" if s[2] is None else " = " + r_expr(s[2]), els)
     return s[1]
 
 
@@ -677,6 +678,82 @@ def enum_fnshapes():
           "body": [["expr", M(EMIT(V("app"), "worker-started", ["lit", "bool"]), "unwrap")]]}
     cases.append({"files": [{"name": "src/main.rs", "prelude": PRELUDE, "fns": [command_fn(0), ns, hb, sd]}], "zod": False})
     cases.append({"files": [{"name": "src/main.rs", "prelude": PRELUDE, "fns": [command_fn(0), hb]}], "zod": True})
+    return cases
+
+
+# ------------------------------------------------------------------ compositions of placements
+DOC_WRAPPERS = ["recv-ok", "recv-args", "await", "try", "block", "if-then", "if-else", "else-if", "match-arm", "match-arm-block",
+                "loop", "while", "for", "let-in-block", "let-else-in-block"]
+UNDOC_WRAPPERS = ["paren", "ref", "unary", "cast", "call-arg", "method-arg", "field", "index", "closure-call", "return", "break-value",
+                  "macro-arg", "tuple", "closure-body", "unsafe-block", "async-block", "cond", "scrutinee"]
+POSTFIX = ("recv-ok", "recv-args", "await", "try", "field", "cast")
+
+
+def wrap(kind, e):
+    """one wrapper around the expression e; undocumented wrappers the model cannot represent become
+    opaque text (the model sees XOther, the real walker an expression kind it does not enter)"""
+    S_ = lambda x: [["expr", x]]
+    t = r_expr(e)
+    return {
+        "recv-ok": lambda: M(e, "ok"), "recv-args": lambda: M(e, "map_err", ["other", "|e| e.to_string()"]),
+        "await": lambda: ["await", e], "try": lambda: ["try", e], "block": lambda: ["block", S_(e)],
+        "if-then": lambda: ["if", S_(e), None], "if-else": lambda: ["if", [], ["block", S_(e)]],
+        "else-if": lambda: ["if", [], ["if", S_(e), None]], "match-arm": lambda: ["match", [e, ["tuple", []]]],
+        "match-arm-block": lambda: ["match", [["tuple", []], ["block", S_(e)]]],
+        "loop": lambda: ["loop", S_(e) + [["other", "break;"]]], "while": lambda: ["while", S_(e)], "for": lambda: ["for", S_(e)],
+        "let-in-block": lambda: ["block", [["let", ["ident", "_w", False], e]]],
+        # a let-else initialiser must not end with a closing brace: plain let pattern there
+        "let-else-in-block": lambda: ["block", [["let", ["other", "Ok(_w)"], e] + ([] if r_expr(e).rstrip().endswith("}") else ["else { return; }"])]],
+        "paren": lambda: ["other", "(%s)" % t], "ref": lambda: ["ref", e], "unary": lambda: ["other", "!%s" % t],
+        "cast": lambda: ["other", "(%s as u8)" % t], "call-arg": lambda: ["call", V("wrap"), [e]],
+        "method-arg": lambda: M(V("sink"), "push", e), "field": lambda: ["field", e, "len"], "index": lambda: ["other", "table[%s]" % t],
+        "closure-call": lambda: ["other", "(|| %s)()" % t], "return": lambda: ["other", "return %s" % t],
+        "break-value": lambda: ["other", "loop { break %s; }" % t], "macro-arg": lambda: ["other", "dbg!(%s)" % t],
+        "tuple": lambda: ["tuple", [e, ["lit", "int"]]], "closure-body": lambda: ["other", "move || { %s; }" % t],
+        "unsafe-block": lambda: ["other", "unsafe { %s }" % t], "async-block": lambda: ["other", "async move { %s }" % t],
+        "cond": lambda: ["other", "if %s.is_ok() { }" % t], "scrutinee": lambda: ["other", "match %s { _ => {} }" % t],
+    }[kind]()
+
+
+def compose_case(kinds, idx, recv=None, to=False):
+    """wrappers applied innermost first around one emit; placed as a let initialiser (always
+    syntactically safe) and, when no postfix wrapper sits on a block-like expression, also as an
+    expression statement in a second function"""
+    name = "cmp-%d" % idx
+    r = recv if recv is not None else V("app")
+    e = EMIT_TO(r, name, ["struct", ["Heartbeat"]]) if to else EMIT(r, name, ["struct", ["Heartbeat"]])
+    safe_stmt = True
+    for k in kinds:
+        if k in POSTFIX and (e[0] in BLOCKLIKE or (e[0] == "other" and e[1].lstrip()[:1] in "{(ilmua!")):
+            safe_stmt = False
+        e = wrap(k, e)
+    if e[0] == "other" and not e[1].rstrip().endswith("}"):
+        pass
+    body = [["let", ["ident", "_c", False], e]]
+    fns = [{"name": "composed", "cmd": False, "wrap": None, "params": [list(p) for p in STD_PARAMS], "body": body}]
+    if safe_stmt and idx % 2 == 0:
+        e2 = EMIT(V("window"), name + "-s", ["lit", "int"])
+        for k in kinds:
+            e2 = wrap(k, e2)
+        st = ["other", r_expr(e2) + ";"] if e2[0] == "other" else ["expr", e2]
+        fns.append({"name": "composed_stmt", "cmd": False, "wrap": None, "params": [], "body": [st]})
+    fns.append(command_fn(0))
+    return {"files": [{"name": "src/lib.rs", "fns": fns}], "zod": idx % 9 == 0}
+
+
+def enum_compositions(rng, n_triples):
+    """every ordered pair of wrappers (documented and undocumented), sampled triples"""
+    allw = DOC_WRAPPERS + UNDOC_WRAPPERS
+    cases = []
+    i = 0
+    for inner in allw:
+        for outer in allw:
+            i += 1
+            cases.append(compose_case([inner, outer], i, recv=DOC_RECEIVERS[i % len(DOC_RECEIVERS)], to=(i % 4 == 0)))
+    for _ in range(n_triples):
+        i += 1
+        ks = [rng.choice(DOC_WRAPPERS if rng.random() < 0.75 else UNDOC_WRAPPERS) for _ in range(3)]
+        cases.append(compose_case(ks, i, recv=rng.choice(DOC_RECEIVERS), to=rng.random() < 0.3))
     return cases
 
 
